@@ -1566,6 +1566,35 @@ theorem invokeTimers_ok {cfg : Cfg} (R : Repaired cfg) {gh : Ghost} (hg : 1 ≤ 
           rw [h2]
           exact h3
 
+/-- When the loop of `tickit_evloop_invoke_timers` ends, the head of the queue is not due - whatever the callbacks have put
+    there meanwhile: a timer a callback registers for an instant that has passed is run by the same call. -/
+theorem invokeTimers_head (cfg : Cfg) : ∀ (fuel : Nat) (top top' : Top), invokeTimers cfg fuel top = .ok top' →
+    ∀ e rest, (top'.inst.getD {}).timers = e :: rest → e.1 > top'.now
+  | 0, _, _, h => by cases h
+  | fuel + 1, top, top', h => by
+    intro e rest he
+    unfold invokeTimers at h
+    cases ht : (top.inst.getD {}).timers with
+    | nil =>
+      rw [ht] at h
+      cases h
+      rw [ht] at he; cases he
+    | cons e0 rest0 =>
+      rw [ht] at h
+      dsimp only at h
+      by_cases hd : e0.1 > top.now
+      · rw [if_pos hd] at h
+        cases h
+        rw [ht] at he; cases he
+        exact hd
+      · rw [if_neg hd] at h
+        cases hf : fireItem cfg true (setInst top (fun i => { i with timers := rest0 })) e0.2 with
+        | ok t2 =>
+          rw [hf] at h
+          exact invokeTimers_head cfg fuel t2 top' h e rest he
+        | ub k w => rw [hf] at h; cases h
+        | fuel => rw [hf] at h; cases h
+
 /-- What `tickit_tick` does once the root window has been flushed. -/
 def tickTail (cfg : Cfg) (top : Top) (toks : List Tok) : Out Top := do
   let i := top.inst.getD {}
